@@ -162,6 +162,7 @@ type machine struct {
 	// unc: IDs a Remove-subscriber has set out to remove since the last full evaluation. Such a transaction may leave the pool at any
 	// moment, independently of the calls of the history: what the recorded state says about it is not relied upon.
 	unc   map[string]bool
+	fresh map[string]bool // intents taken during the evaluation in progress (carried into the next one, see evaluate)
 	ended bool
 	recs  map[txSpec]*txRec
 	byID  map[string]*txRec
@@ -284,6 +285,7 @@ func (m *machine) freshPool(why string) {
 	m.hist = append(m.hist, "-- pool abandoned ("+why+"), fresh pool --")
 	unregisterSubs(m.subs.subs) // leaked with their pool
 	m.unc = nil
+	m.fresh = nil
 	m.pool, m.conn = newPoolConn(m.cfg, m.ver)
 	m.subs = &subGroup{}
 	for _, k := range m.subKinds {
@@ -685,6 +687,10 @@ func (m *machine) pullIntents() {
 			m.unc = map[string]bool{}
 		}
 		m.unc[id] = true
+		if m.fresh == nil {
+			m.fresh = map[string]bool{}
+		}
+		m.fresh[id] = true
 	}
 }
 
@@ -805,7 +811,14 @@ func (m *machine) evaluate(ctx *stepCtx, st int, dump string) {
 	}
 	m.track(ctx, s)
 	m.prev = s
-	m.unc = nil
+	// An intent taken in THIS evaluation may have been registered after the observation above was made (the subscriber was
+	// descheduled or still busy with its own work when the pool looked quiet): its Remove is then not reflected in s, the
+	// recorded state is out of date about that transaction, and the NEXT call's result must still be judged with the transaction
+	// marked uncertain. The next evaluation's observation waits for that Remove to finish, so one more step is enough.
+	// (False alarm found by `vp check` at VERIF_SEED=1 on a cold, oversubscribed machine - "Remove(..)=false, pooled before: true" -
+	// reproduced 1 in 40 runs with 40 copies of the shard running at once; see DESIGN 9.4.)
+	m.unc = m.fresh
+	m.fresh = nil
 }
 
 // contextChecks: the history-dependent parts of I3, I4, I5.
